@@ -24,6 +24,12 @@ func C12_real_stored() {
 	})
 	s := vChoose("split", n+1)
 	k1, e1 := w.Write(msg[:s])
+	// optionally a Flush in mid-message: the output then has an interior sync-flush point (an
+	// empty stored block), at which an inflater hands out a partial buffer
+	mid := vChoose("midflush", 2) == 1
+	if mid {
+		vAssert(w.Flush() == nil, "real.mid_flush_ok")
+	}
 	k2, e2 := w.Write(msg[s:])
 	vAssert(vAnd(vAnd(e1 == nil, e2 == nil), vAnd(k1 == s, k2 == n-s)), "real.writes_ok")
 	err := w.Flush()
@@ -63,13 +69,17 @@ func C12_real_stored() {
 	back, rerr := io.ReadAll(r)
 	vAssert(rerr == nil, "real.reader_ok")
 	vAssert(vEqBytes(back, msg), "real.reader_recovers_message")
+	// (d) the one-shot helper over the real inflater
+	hp := Helper{Decompressor: func(x io.Reader) Decompressor { return flate.NewReader(x) }}
+	hback, herr := hp.Decompress(out)
+	vAssert(vAnd(herr == nil, vEqBytes(hback, msg)), "real.helper_recovers_message")
 	// a second message on the same writer/reader after Reset (no context takeover)
 	if vChoose("second", 2) == 1 {
 		dst2 := &vRecW{}
 		w.Reset(dst2)
 		w.Write(msg)
 		vAssert(w.Flush() == nil, "real.second_flush_ok")
-		vAssert(vEqBytes(dst2.all, out) || s != n && s != 0, "real.second_message_same_bytes")
+		vAssert(vEqBytes(dst2.all, out) || s != n && s != 0 || mid, "real.second_message_same_bytes")
 		r.Reset(&vBytesSrc{data: dst2.all})
 		back2, rerr2 := io.ReadAll(r)
 		vAssert(vAnd(rerr2 == nil, vEqBytes(back2, msg)), "real.second_message_recovered")
